@@ -100,10 +100,17 @@ def r1_target_escaping(ctx) -> None:
         for esc_set in ("", "E", "X"):
             for esc in (None, "\\"):
                 for part in ("a", "F", "E", "X", "aFEXa"):
-                    it = Interp({"part": part, "filter_set": frozenset(filt), "escaped_chars": frozenset(esc_set), "escape_char": esc, "result": []})
-                    it.run(body)
-                    got = "".join(it.env["result"])
-                    want = "".join(("" if c in filt else ((esc or "") + c if c in esc_set else c)) for c in part)
+                    it = Interp({"part": part, "filter_set": frozenset(filt), "escaped_chars": frozenset(esc_set), "escape_char": esc, "result": [],
+                                 "SigmaValueError": lambda *a, **k: "SigmaValueError"})
+                    try:
+                        it.run(body)
+                        got = "".join(it.env["result"])
+                    except Raised as ex:
+                        got = f"<raises {str(ex)[:15]}>"
+                    if esc is None and any(c in esc_set and c not in filt for c in part):
+                        want = "<raises SigmaValueError>"  # a character that must be escaped, and nothing to escape it with
+                    else:
+                        want = "".join(("" if c in filt else (esc + c if c in esc_set else c)) for c in part)
                     n_states += 1
                     if got != want:
                         wrong.append(f"filter={filt!r} escaped={esc_set!r} escape_char={esc!r} part={part!r}: {got!r} instead of {want!r}")
@@ -390,4 +397,24 @@ def r5_reparse_sites(ctx, rid: str = "C05.R5", placeholders: bool = False) -> No
                 r.ok("C05.R5", q, f"{unparse(n)} is printed and re-parsed — reviewed: {reason}; exact only as far as C05.R2 holds", loc)
             else:
                 r.violation("C05.R5", q, short(st, 120), "a Sigma string is printed to text and parsed again: unless the printer is a right inverse of the parser (C05.R2) the value changes (backslash before wildcard → literal star); the site is not in the reviewed table", loc)
+    if not placeholders:
+        # parts hold *unescaped* characters: parsing text taken from a part interprets it a second time
+        sc = prog.cls(T + ".SigmaString")
+        n_ctor = 0
+        for name, mf in sorted(sc.methods.items()):
+            part_vars = set()
+            for n in walk_no_nested(mf.node):
+                if isinstance(n, ast.Assign) and isinstance(n.targets[0], ast.Name) and isinstance(n.value, ast.Subscript) and unparse(n.value.value) == "self.s":
+                    part_vars.add(n.targets[0].id)
+                if isinstance(n, (ast.For, ast.comprehension)) and unparse(n.iter) == "self.s" and isinstance(n.target, ast.Name):
+                    part_vars.add(n.target.id)
+            for c in walk_no_nested(mf.node):
+                if isinstance(c, ast.Call) and call_name(c) in ("self.__class__", "SigmaString", "SigmaCasedString") and len(c.args) == 1 and not isinstance(c.args[0], ast.Constant):
+                    n_ctor += 1
+                    roots = {x.id for x in ast.walk(c.args[0]) if isinstance(x, ast.Name)}
+                    loc = f"{mf.module.relpath}:{c.lineno}"
+                    if roots & part_vars:
+                        r.violation(rid, mf.qual, short(c, 80), "text cut out of a string part is handed to the parser again: parts hold the already unescaped characters, so a literal '\\*' inside the slice becomes a wildcard and two backslashes collapse into one", loc)
+                    else:
+                        r.ok(rid, mf.qual, f"{short(c, 60)}: constructor argument is not part text", loc)
     r.floor(rid, 2)
